@@ -17,7 +17,7 @@ import os
 import re
 
 from .. import clifacts, docs, kinds
-from ..facts import UNKNOWN, call_name
+from ..facts import UNKNOWN, call_name, norm
 from ..linters import Linters
 from .c01 import _kind_verdict
 from .c05 import RULE_DOCS
@@ -111,6 +111,17 @@ def check(run, ctx):
 
     for rec in shared.whole_tree_finders(ctx):
         (run.ok(Y4, rec["func"], rec["detail"]) if rec["ok"] else run.finding(Y4, rec["func"], "partial-descent", f"{rec['func']}: {rec['detail']}", rec["loc"]))
+    # tree-sitter recovers from parse errors; a rule that gives up when the tree `has_error` drops the whole file
+    # (every .tsx/.jsx file parses with errors under the TypeScript grammar these analyzers use)
+    n_ts_mod = 0
+    for m in sorted(repo.modules.values(), key=lambda x: x.name):
+        if not m.name.startswith(("src.linters.", "src.analyzers.")):
+            continue
+        n_ts_mod += 1
+        for n in ast.walk(m.tree):
+            if isinstance(n, ast.Attribute) and n.attr in ("has_error", "is_error", "is_missing"):
+                run.finding(Y4, m.name.replace("src.", "", 1), f"gives-up-on-parse-error:{n.attr}", f"{m.name} consults `{norm(n)}`: an analysis that stops when the recovered tree contains an error node reports nothing for the whole file - documented examples embedded next to JSX, or in a file with one unrelated syntax slip, are no longer found", f"{m.rel}:{n.lineno}")
+    run.ok(Y4, "parse-error tolerance", f"{n_ts_mod} linter/analyzer modules: none consults has_error / is_error")
 
     Y3 = run.rule("Y3", "node-kind literals in the TypeScript analyzers outside nesting are named kinds of the linked grammar", floor=60)
     g = ctx.grammar
